@@ -419,6 +419,16 @@ theorem Bal.drop : ∀ (n : Nat) {h : Heap} {U : Nat → Nat} {x : Nat} {P PB Z 
     · simp only [hrc, if_false]
       exact hb.dec hx hrc
 
+/-- a list of pending drops -/
+theorem Bal.dropList (n : Nat) {U : Nat → Nat} : ∀ (L : List Nat) {h : Heap} {P PB Z : List Nat}, (∀ l ∈ L, l < n) →
+    Bal h U (L ++ P) PB Z → Bal (L.foldl (Sqfs.Obj.drop n) h) U P PB Z := by
+  intro L
+  induction L with
+  | nil => intro h P PB Z _ hb; exact hb
+  | cons l t iht =>
+    intro h P PB Z hl hb
+    exact iht (fun l' hl' => hl l' (List.mem_cons_of_mem _ hl')) (Bal.drop n hb (hl l List.mem_cons_self))
+
 /-- `Bal` depends on the pending lists only through multiplicities -/
 theorem Bal.perm {h : Heap} {U : Nat → Nat} {P P' PB PB' Z : List Nat} (hb : Bal h U P PB Z)
     (hP : ∀ x, P'.count x = P.count x) (hPB : ∀ b, PB'.count b = PB.count b) : Bal h U P' PB' Z := by
@@ -653,5 +663,37 @@ theorem Bal.allocObj {h : Heap} {U : Nat → Nat} {P PB : List Nat} {c : Obj}
     rw [List.count_append, count_filterMap_id] at this
     rw [show bufCount _ [] b = bufCount h [] b + c.bufs.count (some b) from hC _ _]
     omega
+
+/-- a reference the user holds is a reference to a live object -/
+theorem Bal.user_live {h : Heap} {U : Nat → Nat} {P PB Z : List Nat} (hb : Bal h U P PB Z) {x : Nat} (hu : 1 ≤ U x) :
+    (h.objs x).isSome ∧ x < h.nobj := by
+  cases hv : h.objs x with
+  | none => have := (hb.dead x (Or.inl hv)).1; omega
+  | some ox => exact ⟨rfl, hb.bound x (by simp [hv])⟩
+
+/-- `Bal.dropAll` for `sqfsDrop` (fuel = number of object ids) -/
+theorem Bal.dropAllTop : ∀ (ds : List Nat) {h : Heap} {U : Nat → Nat}, Bal h U [] [] [] →
+    (∀ x, ds.count x ≤ U x) →
+    Bal (ds.foldl sqfsDrop h) (fun x => U x - ds.count x) [] [] [] := by
+  intro ds
+  induction ds with
+  | nil => intro h U hb _; simpa using hb
+  | cons d t ih =>
+    intro h U hb hc
+    have hd : 1 ≤ U d := by have := hc d; simp only [List.count_cons_self] at this; omega
+    have h1 := (hb.userToPending hd).drop h.nobj (hb.user_live hd).2
+    have h2 := ih h1 (by
+      intro x
+      have := hc x
+      by_cases hx : x = d
+      · subst hx; simp only [List.count_cons_self] at this; simp only [if_true]; omega
+      · rw [List.count_cons_of_ne (Ne.symm hx)] at this; simp only [hx, if_false]; exact this)
+    simp only [List.foldl_cons]
+    have heq : (fun x => (if x = d then U d - 1 else U x) - t.count x) = (fun x => U x - (d :: t).count x) := by
+      funext x
+      by_cases hx : x = d
+      · subst hx; simp only [if_true, List.count_cons_self]; omega
+      · simp only [hx, if_false]; rw [List.count_cons_of_ne (Ne.symm hx)]
+    rw [← heq]; exact h2
 
 end Sqfs.Obj
